@@ -115,6 +115,11 @@ def gen_config(rnd, with_sweep=0.5):
             continue
         proc = rnd.choice(["TSource", "TSourceDef", "TOp1", "TOp2", "TOp1Def", "TOp0", "TOpW", "TProbe", "TProbeP", "rename:a:b",
                            "delete:a", 'template:"x_{a}":out', "TSink", "slice:TOp1:TColl"])
+        if proc in ("rename:a:b", "delete:a") and rnd.random() < 0.5:
+            # key names that differ only in a separator, or that contain the words the generated class names are built from
+            k1 = rnd.choice(["run.id", "run_id", "meta.tag", "meta_tag", "a_to_b", "a", "x.y.z", "x_y.z"])
+            k2 = rnd.choice(["label", "b_to_c", "c", "out.key", "out_key"])
+            proc = f"rename:{k1}:{k2}" if proc.startswith("rename") else f"delete:{k1}"
         node = {"processor": proc}
         if rnd.random() < 0.7:
             base = proc.split(":")[1] if proc.startswith("slice:") else proc
